@@ -186,9 +186,18 @@ def custom_task(task, st, runmod):
                     no, key = nb.get('to_str_radix'), 'to_str_radix'
                 else:
                     no, key = nb.get(name), name
-                if no is None or no == PANIC or key not in wb:
+                if key not in wb or (no is None and key not in nb):
                     continue
-                if name.startswith('checked_') and (no is None):
+                if no == PANIC:
+                    # none of the compared forms may panic; if the narrow type panics where the wide type (same values) does not,
+                    # extension does not commute with the operation
+                    st['events'] += 1
+                    st['ops'][src + ':' + key + ' (narrow vs wide)'] += 1
+                    if wb[key][1] != PANIC:
+                        runmod.add_violation(st, P_as(PROP), nar, mode, res[0][0][k], src + ':' + key + ' (narrow vs wide)', '%s panics' % nar.name,
+                                             '%s gives %s on the same values' % (wide.name, wb[key][0]), 'extension into a wider type does not commute with the operation')
+                    continue
+                if no is None:
                     continue
                 if name == 'from_str' and not (isinstance(no, tuple) and no[0] == 'S' and isinstance(no[1], tuple) and no[1][0] == 'K'):
                     continue
